@@ -464,7 +464,7 @@ Inductive pexp :=
 | PHasChild (nt : nametest)                 (* x          *)
 | PHasAttr (a : name)                       (* @a         *)
 | PChildPred (nt : nametest) (p : pexp)     (* x[p]       *)
-| PAttrEqChild (a : name) (nt : nametest)   (* @a=x: an attribute compared with a child value *)
+| PAttrEqChild (a : name) (nt : nametest)   (* @a=x: an attribute compared with the FIRST x child's value *)
 | PChildPosEq (nt : nametest) (i : nat) (v : bytes)  (* x[i]='v', i written as one digit (1..4) *)
 | PCount (nt : nametest) (n : nat)          (* count(x)=n, n written as one digit (0..4) *)
 | PAnd (p q : pexp) | POr (p q : pexp) | PNot (p : pexp).
@@ -519,9 +519,12 @@ Fixpoint pred_of (p : pexp) (t : tree) {struct p} : bool :=
   | PHasAttr a => existsb (fun k => is_attr_node k && name_eqb a (node_name k)) (t_kids t)
   | PChildPred nt q => existsb (fun k => is_element k && nt_match nt (node_name k) && pred_of q k) (t_kids t)
   | PAttrEqChild a nt =>
-      existsb (fun x => is_attr_node x && name_eqb a (node_name x) &&
-                        existsb (fun k => is_element k && nt_match nt (node_name k)
-                                          && bytes_eqb (inner_text x) (inner_text k)) (t_kids t)) (t_kids t)
+      (* the engine compares the FIRST node of either node-set only (antchfx cmpNodeSetNodeSet) *)
+      match find (fun x => is_attr_node x && name_eqb a (node_name x)) (t_kids t),
+            find (fun k => is_element k && nt_match nt (node_name k)) (t_kids t) with
+      | Some x, Some k => bytes_eqb (inner_text x) (inner_text k)
+      | _, _ => false
+      end
   | PChildPosEq nt i v =>
       match i with
       | O => false
